@@ -3,6 +3,8 @@ package main
 import (
 	"fmt"
 	"strings"
+
+	pongo2 "github.com/flosch/pongo2/v6"
 )
 
 func init() {
@@ -327,15 +329,16 @@ func suiteC08(cfg Config, res *Result) {
 // --- calls ---------------------------------------------------------------------------
 
 func suiteC08Calls(cfg Config, res *Result) {
-	res.Rule = "every function of the catalogue (23 signatures: no/one/two parameters, variadic, *Value parameters, implicit *ExecutionContext, interface parameters, (T, error) results failing and succeeding, *Value results incl. safe, 0/3 results, second result not an error, slice/map/struct parameters) and every method of the harness struct (value and pointer receivers, through values, pointers and nil pointers) x argument lists of length 0..3 drawn from literals and context values of every type; expected outcome computed by calling the Go function directly when the arguments fit its signature (and an execution error otherwise); oracle: `{{ f(args) }}` renders like the result bound directly / is an execution error; also compared with the Lean model's call protocol; non-trivial = all; distinct by call"
+	res.Rule = "every function of the catalogue (23 signatures: no/one/two parameters, variadic, *Value parameters, implicit *ExecutionContext, interface parameters, (T, error) results failing and succeeding, *Value results incl. safe, 0/3 results, second result not an error, slice/map/struct parameters) and every method of the harness struct (value and pointer receivers, through values, pointers and nil pointers) and of its named string / int types x argument lists of length 0..3 drawn from literals and context values of every type; expected outcome computed by calling the Go function directly when the arguments fit its signature (and an execution error otherwise); oracle: `{{ f(args) }}` renders like the result bound directly / is an execution error; also compared with the Lean model's call protocol; non-trivial = all; distinct by call"
 	rng := NewRNG(cfg.Seed)
 	n := 4000
 	if cfg.Thorough() {
 		n = 80000
 	}
-	names := []string{"s", "i", "fl", "t", "n", "li", "m", "st", "p", "np", "la", "bx", "sf"}
+	names := []string{"s", "i", "fl", "t", "n", "li", "m", "st", "p", "np", "la", "bx", "sf", "sv", "si"}
 	vals := []VT{vStr("str"), vInt(5), vFloat(2.5), vBool(true), vNil(), vList("int", vInt(1), vInt(2)), vSMap([]string{"k"}, []VT{vInt(1)}),
-		vStruct(vStr("fa"), vInt(7), vNil()), vPtr(vStruct(vStr("pa"), vInt(8), vNil())), {K: "nilptr"}, vList("any", vStr("x")), vBoxed(vStr("boxed"), false), vBoxed(vStr("<i>"), true)}
+		vStruct(vStr("fa"), vInt(7), vNil()), vPtr(vStruct(vStr("pa"), vInt(8), vNil())), {K: "nilptr"}, vList("any", vStr("x")), vBoxed(vStr("boxed"), false), vBoxed(vStr("<i>"), true),
+		vStringerStr("named"), vStringerInt(9)}
 	for id := range goFuncs {
 		names = append(names, fmt.Sprintf("f%d", id))
 		vals = append(vals, vFunc(id))
@@ -347,7 +350,12 @@ func suiteC08Calls(cfg Config, res *Result) {
 		var callee string
 		switch rng.Intn(4) {
 		case 0:
-			callee = rng.Pick([]string{"st", "p", "np"}) + "." + rng.Pick([]string{"GetB", "Echo", "PtrName", "Fail", "Sum", "Missing"})
+			if rng.Chance(1, 4) {
+				// methods of named non-struct types
+				callee = rng.Pick([]string{"sv", "si", "s", "li", "m"}) + "." + rng.Pick([]string{"String", "Missing", "GetB"})
+			} else {
+				callee = rng.Pick([]string{"st", "p", "np"}) + "." + rng.Pick([]string{"GetB", "Echo", "PtrName", "Fail", "Sum", "Missing"})
+			}
 		default:
 			callee = fmt.Sprintf("f%d", rng.Intn(len(goFuncs)))
 		}
@@ -376,7 +384,40 @@ func suiteC08Calls(cfg Config, res *Result) {
 		}
 		cases = append(cases, ProgCase{Src: src, Ctx: &ct, Label: "call"})
 	}
+	// well-typed calls whose result is computed by calling the Go function / method directly:
+	// {{ call }} must render like that result bound directly (model-free)
+	st := vals[7].Go().(VS1)
+	pst := vals[8].Go().(*VS1)
+	direct := []struct {
+		expr string
+		val  any
+	}{
+		{"sv.String", SString("named").String()}, {"si.String", SInt(9).String()}, {"st.GetB", st.GetB()}, {`st.Echo("x")`, st.Echo("x")}, {"p.PtrName", pst.PtrName()},
+		{"p.GetB", pst.GetB()}, {"st.Sum(1, 2, i)", st.Sum(1, 2, 5)}, {"st.Sum()", st.Sum()}, {"f0()", goFuncs[0].(func() string)()}, {"f0", goFuncs[0].(func() string)()},
+		{"f1(4)", goFuncs[1].(func(int) int)(4)}, {`f2("a", 3)`, goFuncs[2].(func(string, int) string)("a", 3)}, {"f3(1, 2, 3)", goFuncs[3].(func(...int) int)(1, 2, 3)},
+		{"f3()", goFuncs[3].(func(...int) int)()}, {`f4("p", "x", "y")`, goFuncs[4].(func(string, ...string) string)("p", "x", "y")}, {"f8(i)", 6}, {`f10("q")`, "q@"},
+		{"f11(li)|length", 2}, {"f19(li)", 2}, {"f20(m)", 1}, {"f21(st)", st.A}, {`f22(1, "z")`, "z"}, {"f17(fl)", 3.0}, {"f18(t)", false},
+	}
+	wantDirect := map[string]string{}
+	for _, d := range direct {
+		ref := ProgCase{Src: "{{ leaf }}", Label: "ref"}
+		set, _ := ref.buildSet()
+		tpl, err := set.FromString("{{ leaf }}")
+		if err != nil {
+			continue
+		}
+		out, err := tpl.Execute(pongo2.Context{"leaf": d.val})
+		if err != nil {
+			continue
+		}
+		pc := ProgCase{Src: "{{ " + d.expr + " }}", Ctx: &ct, Label: "direct"}
+		cases = append(cases, pc)
+		wantDirect[pc.Req()] = out
+	}
 	runProgCases(cfg, res, cases, "c08c", nil, func(c ProgCase, o ImplOutcome) *Finding {
+		if want, ok := wantDirect[c.Req()]; ok && (o.Class != "ok" || o.Out != want) {
+			return &Finding{Kind: "oracle", Proj: "resolver", Sig: "c08-call-wrong-value", Case: c.String(), Impl: o.Canon() + " " + o.Msg, Model: "renders like the function's result bound directly: ok " + hxb(want)}
+		}
 		if o.Class == "panic" {
 			return &Finding{Kind: "oracle", Proj: "resolver", Sig: "c08-panic", Case: c.String(), Impl: "panic " + o.Msg, Model: "never a panic"}
 		}
@@ -424,7 +465,7 @@ func suiteC08Shadow(cfg Config, res *Result) {
 		if inCtx {
 			levels++
 		}
-		switch rng.Intn(7) {
+		switch rng.Intn(8) {
 		case 0:
 			src, want = "[{{ x }}]", "["+outer+"]"
 		case 1:
@@ -442,6 +483,20 @@ func suiteC08Shadow(cfg Config, res *Result) {
 		case 5:
 			pc.Loaders = []map[string]string{{"i.tpl": "<{{ x }}>"}}
 			src, want = `{% include "i.tpl" with x="T" %}{% include "i.tpl" %}{{ x }}`, "&lt;T&gt;"[0:0]+"<T><"+outer+">"+outer
+			levels++
+		case 6:
+			// a sub-template sees the includer's current bindings, tags over context over globals
+			pc.Loaders = []map[string]string{{"i.tpl": "({{ x }})"}}
+			switch rng.Intn(4) {
+			case 0:
+				src, want = `{% set x = "T" %}{% include "i.tpl" %}`, "(T)"
+			case 1:
+				src, want = `{% with x="T" %}{% include "i.tpl" %}{% endwith %}{% include "i.tpl" %}`, "(T)("+outer+")"
+			case 2:
+				src, want = `{% for x in two %}{% include "i.tpl" %}{% endfor %}`, "(1)(2)"
+			default:
+				src, want = `{% set f = "i.tpl" %}{% set x = "T" %}{% include f %}`, "(T)"
+			}
 			levels++
 		default:
 			src, want = "{% with y=x %}{% set x = \"T\" %}{{ x }}{{ y }}{% endwith %}{{ x }}", "T"+outer+outer
